@@ -54,7 +54,7 @@ typedef struct {
 	int race_detect;		/* 1: report data races as failures (clause "data-race"); 2: stop at the first race and
 					 * only set vs_stats.racy (the caller re-explores with fine_grained) */
 	int fine_grained;		/* plain accesses to VS_SHARED memory are scheduling points too (for racy code) */
-	int spurious_cas;		/* a weak CAS may fail spuriously (one deviation each) */
+	int spurious_cas;		/* a weak CAS may fail spuriously: at most this many times per execution (one deviation each) */
 	uint64_t max_executions;	/* 0 = no cap */
 } vs_options;
 
